@@ -174,6 +174,32 @@ def d_obsfcst(ctx, inputs, paths, ref, opt):
                 ctx.require(same_points(list(zip(xs, exp)), list(zip(lq[0][0], lq[0][1]))), "obsfcst:quantile-line", label=label, expected=exp, actual=lq[0][1].tolist())
 
 
+def d_qq_quantiles(ctx, inputs, paths, ref, opt):
+    """qq with -q levels (one dashed curve per level and input), pooled or aggregated along -x"""
+    axis, qs = opt
+    r, fig, out = render(paths + ["-m", "qq", "-q", ",".join(gen.fmt_num(q) for q in qs)] + (["-x", axis] if axis else []))
+    if r.kind != "ok":
+        return ctx.fail("qq-q:%s:%s" % (r.kind, r.site or "rejected"))
+    lbl = lines_by_label(fig)
+    roles = ["obs", "fcst"] + [("q", q) for q in qs]
+    for i, ai in enumerate(inputs):
+        if axis:
+            rowsets = [ref.request(roles, i, axis, k) for k in range(len(ref.axis_values(axis)))]
+            cols = [[MP._mean([r_[c] for r_ in rows]) if rows else float("nan") for rows in rowsets] for c in range(len(roles))]
+        else:
+            rows = ref.request(roles, i, "no", 0)
+            cols = [[r_[c] for r_ in rows] for c in range(len(roles))]
+        srt = lambda v: sorted(v, key=lambda z: (math.isnan(z), z))     # noqa  (numpy sorts NaN last)
+        xs = srt(cols[0])
+        for c, lab in [(1, ai.name + " (deterministic)")] + [(2 + j, "%s (%g%%)" % (ai.name, q * 100)) for j, q in enumerate(qs)]:
+            ls = one_line(ctx, lbl, lab, "qq-q")
+            if not ls:
+                continue
+            exp = list(zip(xs, srt(cols[c])))
+            ctx.require(same_points(exp, list(zip(ls[0][0], ls[0][1]))), "qq-q:%s" % ("deterministic" if c == 1 else "quantile-curve"), label=lab, axis=axis,
+                        expected=exp[:5], actual=list(zip(ls[0][0].tolist(), ls[0][1].tolist()))[:5])
+
+
 def d_qq_scatter(ctx, inputs, paths, ref, opt):
     which, simple = opt
     r, fig, out = render(paths + ["-m", which] + (["-simple"] if simple else []))
@@ -659,6 +685,19 @@ def sample_cov(xs, ys):
 
 def d_autocorr(ctx, inputs, paths, ref, opt):
     metric, axis = opt if isinstance(opt, tuple) else ("autocorr", opt)
+    shared = False
+    if axis.endswith("-shared"):
+        # two of the three stations share a latitude and an elevation: pairs of DIFFERENT series have zero separation
+        axis = axis[:-len("-shared")]
+        shared = True
+        l0 = inputs[0].locs
+        locs = [l0[0], (l0[1][0], l0[0][1], l0[1][2], l0[0][3]), l0[2]]
+        full = len(inputs[0].fields["fcst"]) == len(inputs[0].positions())
+        inputs = [datasets.full_input(ai.name, ai.times, ai.leads, locs, k=k, seed=core.seed(), missing=([] if full else [("fcst", (0, 1, 1))] if k == 0 else [("obs", (2, 0, 2))]))
+                  for k, ai in enumerate(inputs)]
+        paths = write(inputs, "c16-auto-shared-%d-%d" % (len(inputs), int(full)))
+        ref = RD.RefData(inputs)
+        ctx.flag("zero-separation-pairs")
     r, fig, out = render(paths + ["-m", metric, "-x", axis])
     if r.kind != "ok":
         return ctx.fail("%s:%s:%s" % (metric, r.kind, r.site or "rejected"))
@@ -715,6 +754,15 @@ def d_autocorr(ctx, inputs, paths, ref, opt):
                 exp.append((dist(a, b), float("nan") if c is None else c))
         ctx.require(same_points(exp, list(zip(ls[0][0], ls[0][1])), tol=1e-6), "%s:points" % metric, input=ai.name, axis=axis, expected=exp[:4],
                     actual=list(zip(ls[0][0].tolist(), ls[0][1].tolist()))[:4])
+        # the large square at separation 0: the median over ALL pairs with zero separation (not only a series with itself)
+        zero = [y for x, y in exp if x == 0]
+        sq = [l for l in ls[0][2].get_lines() if l.get_marker() == "s" and len(l.get_xdata()) == 1 and float(l.get_xdata()[0]) == 0.0]
+        if len(sq) == len(inputs) and zero:
+            zs = sorted(zero)
+            med = float("nan") if any(math.isnan(z) for z in zs) else (zs[len(zs) // 2] if len(zs) % 2 else 0.5 * (zs[len(zs) // 2 - 1] + zs[len(zs) // 2]))
+            gy = float(sq[i].get_ydata()[0])
+            ok = (math.isnan(med) and math.isnan(gy)) or abs(med - gy) <= 1e-6 * max(1.0, abs(med))
+            ctx.require(ok, "%s:zero-separation-point" % metric, input=ai.name, axis=axis, expected=med, actual=gy, pairs=len(zero))
 
 
 def d_igncontrib(ctx, inputs, paths, ref, opt):
@@ -1071,6 +1119,7 @@ def d_mapimpact(ctx, inputs, paths, ref, opt):
 DIAGRAMS = {
     "standard": (d_standard, [("mae", "leadtime"), ("mae", "location"), ("corr", "time"), ("ets", "leadtime"), ("bs", "leadtime"), ("rmse", "no"), ("bias", "month"), ("mae", "leadtimeday")]),
     "obsfcst": (d_obsfcst, ["leadtime", "time", "location", ("leadtime", (0.1, 0.9)), ("location", (0.9, 0.5, 0.1))]),
+    "qq-quantiles": (d_qq_quantiles, [(None, (0.1, 0.9)), ("leadtime", (0.1, 0.5, 0.9)), ("location", (0.9, 0.1))]),
     "qq-scatter": (d_qq_scatter, [("qq", False), ("scatter", True), ("scatter", False)]),
     "hist-sort": (d_hist_sort, [("hist", "fcst"), ("sort", "fcst"), ("sort", "obs"), ("hist", "obs")]),
     "pithist": (d_pithist, [None]),
@@ -1089,7 +1138,8 @@ DIAGRAMS = {
     "against": (d_against, [None]),
     "droc": (d_droc, [("droc", 2.0), ("droc0", 2.0), ("droc", 1.0)]),
     "invreliability": (d_invreliability, [0.5, 0.1]),
-    "autocorr": (d_autocorr, [("autocorr", "leadtime"), ("autocorr", "time"), ("autocorr", "location"), ("autocov", "leadtime"), ("autocov", "elev"), ("autocov", "lat"), ("autocorr", "lon")]),
+    "autocorr": (d_autocorr, [("autocorr", "leadtime"), ("autocorr", "time"), ("autocorr", "location"), ("autocov", "leadtime"), ("autocov", "elev"), ("autocov", "lat"), ("autocorr", "lon"),
+                             ("autocorr", "lat-shared"), ("autocov", "elev-shared")]),
     "fss": (d_fss, [("leadtime", 2.0, "above"), ("location", 2.0, "above"), ("location", 1.0, "below=")]),
     "meteo": (d_meteo, [None, (0.9, 0.1)]),
     "impact": (d_impact, [(-4.1, 2.0, 7.9), (-0.1, 1.0, 5.9)]),
@@ -1123,7 +1173,7 @@ def run(tier, only=None):
     st = explore.explore(harness, mode="full", params={"diagrams": diagrams}, repo_root=core.REPO, time_cap=(400 if tier == "quick" else 3000))
     return [core.Sub.from_e1("figures", st, bound="full product: %d diagram families x their option menus x {1,2,3} inputs x {partly missing, complete} dataset" % len(diagrams),
                              rule="one execution = one figure rendered by the driver; main series (by legend label) compared with reference statistics; non-trivial = more than one input",
-                             required_flags=tuple(f for d, f in (("reliability", "inset"), ("reliability", "outside-edges"), ("fss", "fss-scales"), ("impact", "impact"), ("rank", "rank-cycle")) if d in diagrams), wall=time.time() - t0)]
+                             required_flags=tuple(f for d, f in (("reliability", "inset"), ("reliability", "outside-edges"), ("fss", "fss-scales"), ("impact", "impact"), ("rank", "rank-cycle"), ("autocorr", "zero-separation-pairs")) if d in diagrams), wall=time.time() - t0)]
 
 
 def replay(rec):
